@@ -45,7 +45,7 @@ ASSUMPTIONS = [
 def GATES(tier):
     return [("ops_judged", 500), ("twin_results_compared", 200), ("inplace_attempts_judged", 100), ("frozen_snapshots_compared", 500),
             ("mode:frozen_class", 100), ("mode:frozen_child", 100), ("cls_kind:spec_sub", 10), ("cls_kind:plain_sub", 10),
-            ("window_copies_attacked", 20), ("window_copy_writes_judged", 100), ("delegating_init_constructions", 10)] + [(f"kind:{hk}", 3) for hk in dr.HELPER_KINDS]
+            ("window_copies_attacked", 20), ("window_copy_writes_judged", 100), ("delegating_init_constructions", 10), ("post_copy_writes_cases", 10), ("directed_descriptor_cases", 10)] + [(f"kind:{hk}", 3) for hk in dr.HELPER_KINDS]
 
 
 def strip_frozen(decl):
@@ -110,8 +110,78 @@ def outcome_class(step):
     return "returned" if step.outcome == "returned" else f"raised:{type(step.exc).__name__}"
 
 
+DIRECTED_SRC = """
+from spec_classes import spec_class, spec_property, Alias
+
+@spec_class(frozen={frozen})
+class P:
+    x: int = 1
+    total: int          # managed attribute stored through a property with a setter
+    al: int = Alias("x", passthrough=True)   # managed attribute stored through an alias descriptor
+
+    @spec_property(overridable=False)
+    def total(self):
+        return self.__dict__.get("_total", 10)
+
+    @total.setter
+    def total(self, value):
+        self.__dict__["_total"] = value
+"""
+
+
+def directed_descriptor_cases(ctx):
+    """Attributes stored through a descriptor: copy-on-write helpers behave as on the non-frozen twin, in-place ones are rejected."""
+    import warnings
+
+    from spec_classes import FrozenInstanceError
+
+    with warnings.catch_warnings():
+        warnings.simplefilter("ignore")
+        F = cg.exec_module(DIRECTED_SRC.format(frozen=True), prefix="verif_c07d").__dict__["P"]
+        T = cg.exec_module(DIRECTED_SRC.format(frozen=False), prefix="verif_c07d").__dict__["P"]
+    view = lambda p: (p.x, p.total, p.al)  # noqa: E731
+    ops = [
+        ("with_total(5)", lambda p, ip: p.with_total(5, _inplace=ip)),
+        ("transform_total(inc)", lambda p, ip: p.transform_total(lambda v: v + 1, _inplace=ip)),
+        ("update(total=7)", lambda p, ip: p.update(total=7, _inplace=ip)),
+        ("with_al(3)", lambda p, ip: p.with_al(3, _inplace=ip)),
+        ("transform_al(inc)", lambda p, ip: p.transform_al(lambda v: v + 1, _inplace=ip)),
+        ("update(al=4, x=2)", lambda p, ip: p.update(al=4, _inplace=ip)),
+        ("with_x(9)", lambda p, ip: p.with_x(9, _inplace=ip)),
+        ("deepcopy", lambda p, ip: copy.deepcopy(p)),
+    ]
+    for label, fn in ops:
+        for ip in (False, True):
+            if label == "deepcopy" and ip:
+                continue
+            f, t = F(x=2), T(x=2)
+            before = view(f)
+            ctx.count("ops_judged")
+            ctx.count("directed_descriptor_cases")
+            feats = {"mode": "directed_descriptor", "hkind": label.split("(")[0], "inplace": ip}
+            try:
+                rt = view(fn(t, ip))
+            except Exception as e:  # the twin decides whether the call is well-formed
+                rt = f"raised {type(e).__name__}"
+            try:
+                rf = view(fn(f, ip))
+            except Exception as e:
+                rf = f"raised {type(e).__name__}"
+            ctx.sig("directed_descriptor", label, ip, str(rf)[:20])
+            if view(f) != before:
+                ctx.violation("frozen_instance_unchanged", f"[directed] P.{label} (in place: {ip}) changed the frozen receiver: {before} -> {view(f)}", features=feats, case=["directed", label, ip])
+            elif ip and not isinstance(rt, str):
+                if rf != "raised FrozenInstanceError":
+                    ctx.violation("inplace_on_frozen_rejected", f"[directed] in-place P.{label} on a frozen instance: {rf}; expected FrozenInstanceError", features=feats, case=["directed", label, ip])
+            elif not ip and rf != rt:
+                ctx.violation("frozen_twin_differential", f"[directed] P.{label}: frozen class gives {rf}, the same class without frozen=True gives {rt}", features=feats, case=["directed", label, ip])
+
+
 def run(ctx, params):
     from spec_classes import FrozenInstanceError
+
+    if params.get("directed"):
+        return directed_descriptor_cases(ctx)
 
     rng = ctx.rng
     for ci in range(params["cases"]):
@@ -122,6 +192,9 @@ def run(ctx, params):
         decl = cg.gen_module(rng, profile)
         if mode == "frozen_child":
             decl.leaf_frozen = True
+        if mode == "frozen_class" and rng.random() < 0.3:
+            decl.classes[0].post_copy = decl.classes[0].post_copy_writes = True  # the documented use of the hook: it finalises (writes to) the copy
+            ctx.count("post_copy_writes_cases")
         window_copies = mode == "frozen_class" and rng.random() < 0.4
         if window_copies:
             decl.classes[0].post_init = True
@@ -269,5 +342,5 @@ def run(ctx, params):
 
 def plan(tier, seed):
     if tier == "quick":
-        return [{"shard": i, "cases": 45, "ops_per_case": 14} for i in range(16)]
-    return [{"shard": i, "cases": 900, "ops_per_case": 16} for i in range(32)]
+        return [{"directed": True}] + [{"shard": i, "cases": 45, "ops_per_case": 14} for i in range(16)]
+    return [{"directed": True}] + [{"shard": i, "cases": 900, "ops_per_case": 16} for i in range(32)]
